@@ -1,6 +1,6 @@
 """C05 - guaranteed sends are eventually delivered, for every size, from both APIs."""
 import collections
-from checks.common import UdpCheck, gen_traffic, limits, ConnectionStatus, client_addr, FragExpiryProbe
+from checks.common import UdpCheck, gen_traffic, limits, ConnectionStatus, client_addr, FragExpiryProbe, QueueConservation
 
 
 def lenclass(mtu, n):
@@ -63,7 +63,8 @@ class C05(UdpCheck):
 
     def monitors(self, case):
         self.fx = FragExpiryProbe()
-        return [self.fx]
+        self.qc = QueueConservation()
+        return [self.fx, self.qc]
 
     def judge(self, w, case):
         vs = []
@@ -73,6 +74,8 @@ class C05(UdpCheck):
                 side = "server" if rec["who"] == "S" else "client"
                 vs.append({"kind": "send_api_raised", "key": "%s:%s:%s" % (side, rec["api"], rec.get("exc")),
                            "detail": {k: rec[k] for k in ("who", "api", "len", "retry", "t", "exc")}})
+        cfg_ = case["cfg"]
+        vs += self.qc.judge(w, 3 * max(cfg_["server"]["interval"], 1 / 60) + cfg_["reactor_lag"] + cfg_.get("wake_lag", 0) + 0.02)
         pairs = open_pairs(w)
         if not pairs:
             w.vacuous = True
